@@ -21,7 +21,7 @@ from .. import tlc, mbt, trace, tlaval
 from ..common import Verdict, use_repo, REPO, SEED
 
 # ------------------------------------------------------------------------------------------------ configurations
-ALLK = ['w', 'e', 'p', 'm', 'u', 'n', 'c', 's', 'i', 'k', 'b', 'f', 'g']
+ALLK = ['w', 'e', 'p', 'm', 'u', 'n', 'c', 's', 'i', 'k', 'b', 'f', 'g', 'h']
 
 
 def S(*xs):
@@ -37,54 +37,53 @@ ALLIND = S(NONE, 0, 1, 2, 3, 4, 5, 6, 7, 8, 9, 10)
 ALLWID = S(NONE, 0, 1, 5, 20, 80)
 CONFIGS = {
     # nesting: every block / flow nesting x every indent value
-    'nest':    dict(BASE, Indents=ALLIND, MaxEvents=6, MaxDepth=3),
-    'nest+':   dict(BASE, Indents=ALLIND, MaxEvents=8, MaxDepth=4),
+    'nest':    dict(BASE, Indents=ALLIND, MaxEvents=5, MaxDepth=3),
+    'nest+':   dict(BASE, Indents=ALLIND, MaxEvents=7, MaxDepth=4),
     # width: folding of plain scalars and flow collections x every width x canonical
     'width':   dict(BASE, Indents=S(NONE, 4), Widths=ALLWID, Canon=S(False, True), ScalarKinds=S('w', 'p'),
                     CollKinds=S('BS', 'FS', 'BM', 'FM'), MaxEvents=4, MaxDepth=2),
-    'width+':  dict(BASE, Indents=S(NONE, 1, 3, 9), Widths=ALLWID, Canon=S(False, True), ScalarKinds=S('w', 'p', 'f'),
+    'width+':  dict(BASE, Indents=S(NONE, 3, 9), Widths=ALLWID, Canon=S(False, True), ScalarKinds=S('w', 'p', 'f'),
                     CollKinds=S('BS', 'FS', 'BM', 'FM'), MaxEvents=5, MaxDepth=3),
     # keys: simple / complex keys, aliases, empty collections as keys
     'keys':    dict(BASE, Indents=S(NONE, 3), ScalarKinds=S('w', 'e', 'm', 'k'), CollKinds=S('BM', 'BS', 'FS'), Anchors='TRUE',
                     MaxEvents=5, MaxDepth=2),
-    'keys+':   dict(BASE, Indents=S(NONE, 3, 10), ScalarKinds=S('w', 'e', 'm', 'k', 'z'), CollKinds=S('BM', 'BS', 'FS', 'FM'),
-                    Anchors='TRUE', MaxEvents=6, MaxDepth=3),
+    'keys+':   dict(BASE, Indents=S(NONE, 3), ScalarKinds=S('w', 'e', 'm', 'k', 'z'), CollKinds=S('BM', 'BS', 'FS'),
+                    Anchors='TRUE', MaxEvents=6, MaxDepth=2),
     # scalars: every scalar class in every context x allow_unicode x explicit tags
     'scalars': dict(BASE, Indents=S(NONE, 4), Widths=S(NONE, 5), Unicode=S(False, True), ScalarKinds=S(*ALLK),
-                    CollKinds=S('BS', 'BM', 'FS'), ExplicitTags='TRUE', MaxEvents=3, MaxDepth=2),
-    'scalars+': dict(BASE, Indents=S(NONE, 4), Widths=S(NONE, 5, 20), Unicode=S(False, True), ScalarKinds=S(*ALLK),
-                     CollKinds=S('BS', 'BM', 'FS', 'FM'), ExplicitTags='TRUE', MaxEvents=4, MaxDepth=2),
+                    CollKinds=S('BS', 'BM', 'FS'), MaxEvents=4, MaxDepth=2),
+    'scalars+': dict(BASE, Indents=S(NONE, 4), Widths=S(NONE, 5), Unicode=S(False, True), ScalarKinds=S(*ALLK),
+                     CollKinds=S('BS', 'BM', 'FS'), ExplicitTags='TRUE', MaxEvents=4, MaxDepth=2),
     # docs: document markers and directives for every document
     'docs':    dict(BASE, ExplStart=S(False, True), ExplEnd=S(False, True), Versions=S('N', '1.1', '1.2'),
-                    TagSets=S('N', 'T1', 'T2', 'TU'), Canon=S(False, True), ScalarKinds=S('w', 'g', 'm'), CollKinds=S('BS'),
-                    MaxEvents=8, MaxDepth=1, MaxDocs=2),
+                    TagSets=S('N', 'T1', 'TU'), Canon=S(False, True), ScalarKinds=S('w', 'g'), CollKinds=S('BS'),
+                    MaxEvents=6, MaxDepth=1, MaxDocs=2),
     'docs+':   dict(BASE, ExplStart=S(False, True), ExplEnd=S(False, True), Versions=S('N', '1.1', '1.2'),
-                    TagSets=S('N', 'T1', 'T2', 'TU'), Canon=S(False, True), ScalarKinds=S('w', 'g', 'm', 'z'), CollKinds=S('BS', 'FM'),
-                    MaxEvents=11, MaxDepth=1, MaxDocs=3),
+                    TagSets=S('N', 'T1', 'T2', 'TU'), Canon=S(False, True), ScalarKinds=S('w', 'g', 'm'), CollKinds=S('BS'),
+                    MaxEvents=7, MaxDepth=1, MaxDocs=3),
     # enc: line break x encoding x stream x api x allow_unicode
     'enc':     dict(BASE, LineBreaks=S('N', 'CR', 'LF', 'CRLF', 'J'), Encodings=S('N', 'utf-8', 'utf-16-le', 'utf-16-be'),
                     Streams=S('none', 'text', 'binary'), Apis=S('dump', 'serialize', 'emit'), Unicode=S(False, True),
-                    ScalarKinds=S('w', 'u', 'n', 'm', 'b'), CollKinds=S('BS'), MaxEvents=3, MaxDepth=1),
+                    ScalarKinds=S('w', 'u', 'n', 'm', 'b', 'h', 'g', 'f'), CollKinds=S('BS'), MaxEvents=3, MaxDepth=1),
     'enc+':    dict(BASE, LineBreaks=S('N', 'CR', 'LF', 'CRLF', 'J'), Encodings=S('N', 'utf-8', 'utf-16-le', 'utf-16-be'),
                     Streams=S('none', 'text', 'binary'), Apis=S('dump', 'serialize', 'emit'), Unicode=S(False, True),
-                    Canon=S(False, True), ScalarKinds=S('w', 'u', 'n', 'm', 'b', 'f', 'c'), CollKinds=S('BS', 'BM'), MaxEvents=4,
+                    Canon=S(False, True), ScalarKinds=S('w', 'u', 'n', 'm', 'b', 'h', 'g', 'f', 'c'), CollKinds=S('BS'), MaxEvents=4,
                     MaxDepth=1),
     # canon: the canonical form of every structure
     'canon':   dict(BASE, Indents=S(NONE, 4), Widths=S(NONE, 5), Canon=S(True), Unicode=S(False, True),
-                    ScalarKinds=S('w', 'e', 'm', 'u'), Anchors='TRUE', ExplicitTags='TRUE', MaxEvents=4, MaxDepth=2),
+                    ScalarKinds=S('w', 'e', 'm', 'u'), Anchors='TRUE', ExplicitTags='TRUE', MaxEvents=3, MaxDepth=2),
     'canon+':  dict(BASE, Indents=S(NONE, 4), Widths=S(NONE, 5), Canon=S(True), Unicode=S(False, True),
-                    ScalarKinds=S('w', 'e', 'm', 'u', 'p', 'z', 'n'), Anchors='TRUE', ExplicitTags='TRUE', MaxEvents=5, MaxDepth=3),
+                    ScalarKinds=S('w', 'e', 'm', 'u', 'n'), Anchors='TRUE', ExplicitTags='TRUE', MaxEvents=4, MaxDepth=2),
     # full: a tiny structure space x the FULL option product (design check + replay)
     'full':    dict(BASE, Indents=ALLIND, Widths=ALLWID, LineBreaks=S('N', 'CR', 'LF', 'CRLF', 'J'),
                     Encodings=S('N', 'utf-8', 'utf-16-le', 'utf-16-be'), Streams=S('none', 'text', 'binary'),
                     ExplStart=S(False, True), ExplEnd=S(False, True), Versions=S('N', '1.1', '1.2'), TagSets=S('N', 'T1'),
                     Canon=S(False, True), Unicode=S(False, True), Apis=S('dump'), ScalarKinds=S('w'), CollKinds=S('BS', 'BM'),
-                    MaxEvents=0, MaxDepth=0),
+                    MaxEvents=1, MaxDepth=0),
 }
-TIERS = {'quick': ['nest', 'width', 'keys', 'scalars', 'docs', 'enc', 'canon'],
-         'thorough': ['nest+', 'width+', 'keys+', 'scalars+', 'docs+', 'enc+', 'canon+']}
-# design-only runs (no replay): larger bounds, the same alphabets
-DESIGN = {'quick': [], 'thorough': ['full']}
+# 'full' is a design check only (no replay): the full option product over the smallest structure
+TIERS = {'quick': ['nest', 'scalars', 'keys', 'width', 'docs', 'enc', 'canon'],
+         'thorough': ['nest+', 'scalars+', 'keys+', 'width+', 'docs+', 'enc+', 'canon+', 'full']}
 
 # ------------------------------------------------------------------------------------------------ concretisation tables
 WORDS = 'aaaa bbbb cccc dddd eeee ffff'
@@ -103,8 +102,9 @@ REPS = {   # first entry = the text the model's class stands for (exact L predic
     'b': ['a\na\n', 'x\ny\n', 'line\nline\n'],
     'f': [WORDS + '\n', 'lorem ipsum dolor sit amet consectetur adipiscing\n'],
     'g': ['a\n\n', 'z\n\n\n'],
+    'h': ['a\na', 'x\ny\nz', 'no final\nbreak'],
 }
-STYLE = {'b': '|', 'g': '|', 'f': '>'}
+STYLE = {'b': '|', 'g': '|', 'h': '|', 'f': '>'}
 TAGS = {'N': None, 'T1': {'!x!': 'tag:x.org,2002:'}, 'T2': {'!x!': 'tag:x.org,2002:', '!y!': '!local-'},
         'TU': {'!u!': 'tag:\u00fc.org,2002:'}}
 LB = {'N': None, 'CR': '\r', 'LF': '\n', 'CRLF': '\r\n'}
@@ -305,7 +305,7 @@ def canon_lex(text):
                 if t.startswith('!<') and t.endswith('>'):
                     toks.append(['TAG', '', _unpercent(t[2:-1])])
                 elif t == '!':
-                    toks.append(['TAG', '!', ''])
+                    toks.append(['TAG', '', '!'])                 # the non-specific tag, not the primary handle
                 else:
                     k = t.find('!', 1)
                     if k > 0:
@@ -541,7 +541,7 @@ def make_builders(yaml):
         out, flags = [], []            # flags: (flow flag, is leaf collection) per collection
         for doc in split_docs(evs):
             has_alias = any(e['k'] == 'Alias' for e in doc)
-            if doc[0]['a'] != has_alias or any(e['t'] for e in doc) or any(e['k'] == 'Scalar' and e['s'] in ('z', 'b', 'f', 'g') for e in doc):
+            if doc[0]['a'] != has_alias or any(e['t'] for e in doc) or any(e['k'] == 'Scalar' and e['s'] in ('z', 'b', 'f', 'g', 'h') for e in doc):
                 raise NotExpressible
             pos = [0]
             root = [None]
@@ -609,7 +609,7 @@ def model_prediction(st, best_break):
 def drift(pred, obs, aux, nel):
     """where does the real output differ from L's prediction? (never a verdict)"""
     if obs['outcome'] != 'ok':
-        return 'outcome ' + obs['outcome']
+        return None                       # no output at all: that is for H to judge, not a layout difference
     if pred['rtype'] != obs['rtype'] or pred['bom'] != obs['bom']:
         return 'result type / BOM'
     real = [{'ind': l['ind'], 'brk': 'NEL' if l['brk'] in ('NEL', 'LS', 'PS') else l['brk'], 'cls': norm_cls(l['cls'])} for l in aux['lines']]
@@ -676,10 +676,18 @@ def replay(states, extra):
         ndocs = sum(1 for e in evs if e['k'] == 'DocumentStart')
         if any(e['k'] in ('SequenceStart', 'MappingStart') for e in evs):
             res['nontrivial'] += 1
-        pred = model_prediction(st, 'LF' if o['lb'] in ('N', 'J') else o['lb'])
+        pred = model_prediction(st, 'LF' if o['lb'] in ('N', 'J') else o['lb']) if st.get('em') else None
         sink = o['stream']
         calls = []                                       # (api, dumper name, call, events for clause g)
         apis = [o['api']] if extra['apis_from_model'] else ['emit', 'serialize', 'dump']
+        if tier == 'quick' and not extra['apis_from_model']:
+            # emit() and serialize_all() drive the same emitter: the quick tier takes one of them per state (seeded), thorough both
+            apis = [rnd.choice(['emit', 'serialize']), 'dump']
+            if apis[0] == 'serialize':
+                try:
+                    mk_nodes(evs, True, random.Random(0))
+                except NotExpressible:
+                    apis[0] = 'emit'
         for api in apis:
             if api == 'emit':
                 if o['enc'] != 'N' and sink != 'binary':
@@ -720,12 +728,12 @@ def replay(states, extra):
             tk = json.dumps(t, sort_keys=True)
             h = hashlib.md5(tk.encode()).hexdigest()
             if h not in res['traces']:
-                res['traces'][h] = (t, {'config': cfgname, 'api': api, 'dumper': D, 'events': compact(evs), 'options': st['opt'],
+                res['traces'][h] = (t, {'config': cfgname, 'api': api, 'dumper': D, 'events': compact(evs), 'evs': evs, 'options': st['opt'],
                                         'text': text if text is None or len(text) < 600 else text[:600] + '...', 'exc': aux['exc'],
                                         'reread': aux['reread'], 'kw': {k: repr(v) for k, v in kwargs(o, random.Random(0), api == 'emit').items()}})
             res.setdefault('count', {})
             res['count'][h] = res['count'].get(h, 0) + 1
-            if base:
+            if base and pred is not None:
                 d = drift(pred, obs, aux, None)
                 if D.startswith('C'):
                     res['ccalls'] += 1
@@ -971,6 +979,7 @@ def random_work(args):
                 t = mktrace(o, 'emit', obs, text, evl)
                 h = hashlib.md5(json.dumps(t, sort_keys=True).encode()).hexdigest()
                 traces.setdefault(h, (t, {'source': name, 'seed': sd, 'dumper': D, 'kw': {k: repr(v) for k, v in kw.items()},
+                                          'empty_plain_root': empty_plain_root(body),
                                           'events': ' '.join(type(e).__name__[:-5] for e in body)[:400],
                                           'text': text if text is None or len(text) < 600 else text[:600] + '...', 'exc': aux['exc'],
                                           'reread': aux['reread']}))
@@ -978,18 +987,57 @@ def random_work(args):
 
 
 # ------------------------------------------------------------------------------------------------ verdicts
+def empty_plain_root(events):
+    """does some document of the event stream have a root scalar that is written as nothing (empty, plain-implicit, no
+    style that forces quotes)?  key item only"""
+    prev = None
+    for e in events:
+        if type(prev).__name__ == 'DocumentStartEvent' and type(e).__name__ == 'ScalarEvent' and e.value == '' \
+                and e.implicit and e.implicit[0] and not e.style:
+            return True
+        prev = e
+    return False
+
+
 def features(t, meta):
     """the key that identifies the failing class of calls (for known_findings matching)"""
     o = t['o']
-    return {'dumper': 'libyaml' if meta['dumper'].startswith('C') else 'python',
+    return {'empty_plain_root': bool(meta.get('empty_plain_root')),'dumper': 'libyaml' if meta['dumper'].startswith('C') else 'python',
             'tags_nonascii_prefix': any(any(ord(c) > 127 for c in p) for _, p in o['tags']),
             'canonical': o['canon'], 'allow_unicode': o['au'], 'encoding': o['enc'], 'stream': o['stream']}
 
 
+def unhex(s):
+    return ''.join(chr(int(x, 16)) for x in s.split('.')) if s else ''
+
+
+def scalar_difference(t):
+    """for the key of a clause-g violation only: how does the first differing scalar differ?"""
+    got = [unhex(x[1]) for x in t['ctoks'] if x[0] == 'SCALAR']
+    want = [unhex(x[3]) for x in t['cevents'] if x[0] == 'Scalar']
+    for g, w in zip(got, want):
+        if g != w:
+            if g.replace('\\ ', '') == w:
+                return 'backslash-space inserted at a fold'
+            if g.replace(' ', '') == w.replace(' ', ''):
+                return 'spaces'
+            if ''.join(g.split()) == ''.join(w.split()):
+                return 'white space / breaks'
+            return 'other'
+    return 'structure'
+
+
 def judge_all(v, traces, tag):
     """traces: {hash: (trace, meta)} -> number of TLC states; reports violations"""
+    from concurrent.futures import ThreadPoolExecutor
     keys = sorted(traces)
-    verdicts, states = trace.judge('Trace_Format', [traces[k][0] for k in keys], tag, batch=40000)
+    size = 30000
+    parts = [keys[i:i + size] for i in range(0, len(keys), size)] or [[]]
+    with ThreadPoolExecutor(3) as ex:                  # one JVM per batch; JSON loading is single-threaded, so overlap them
+        rs = list(ex.map(lambda a: trace.judge('Trace_Format', [traces[k][0] for k in a[1]], '%s_%d' % (tag, a[0]), batch=size + 1),
+                         list(enumerate(parts))))
+    verdicts = [x for r in rs for x in r[0]]
+    states = sum(r[1] for r in rs)
     for k, (ok, why, at) in zip(keys, verdicts):
         if ok:
             continue
@@ -997,88 +1045,123 @@ def judge_all(v, traces, tag):
         key = dict(features(t, meta), clause=why.split(' ')[0], why=why)
         if t['obs']['outcome'] != 'ok':
             key['exception'] = meta.get('exc', '').split(':')[0]
+        if key['clause'] == 'g':
+            key['difference'] = scalar_difference(t)
         v.violation(key, {'why': why, 'at': at, 'options': t['o'], 'call': meta, 'observation': t['obs']})
     return states
 
 
+def run_config(args):
+    name, workers = args
+    return name, tlc.run('Format', cfg='MC_Format.cfg', dump=name not in DESIGN_ONLY, tag='C15_' + name.replace('+', 'x'), timeout=3000,
+                         coverage=False, workers=workers, heap=HEAP, constants=CONFIGS[name])
+
+
+def job(args):
+    return ('random', random_work(args[1:])) if args[0] == 'random' else ('replay', args[4]['config'], work(args[1:]))
+
+
+HEAP = os.environ.get('VERIF_C15_HEAP', '3g')
+PROCS = int(os.environ.get('VERIF_C15_PROCS', '16'))
+DESIGN_ONLY = {'full'}
+
+
+def replay_file(v, path):
+    """--replay: run the calls of a saved violation file again (same seed) and judge them"""
+    traces = {}
+    for x in json.load(open(path))['violations']:
+        c = x['detail']['call']
+        if 'seed' in c:
+            kind = {'random values': 'values', 'random events': 'events'}.get(c['source'], 'corpus')
+            traces.update(random_work((kind, [c['seed']]))[0])
+        elif 'evs' in c:
+            res = replay([{'opt': c['options'], 'evs': c['evs'], 'em': None}],
+                         {'config': c['config'], 'tier': 'thorough', 'apis_from_model': c['config'].startswith('enc')})
+            traces.update(res['traces'])
+    states = judge_all(v, traces, 'C15_replay')
+    v.cov = {'states': states, 'transitions': 0, 'traces_validated_against_impl': len(traces), 'samples': ['replay of ' + path],
+             'distinct_nontrivial': len(traces), 'rule': 'calls of the saved violation file, run again and judged by TLC'}
+    return v.finish()
+
+
 def main(tier, replay=None):
+    from concurrent.futures import ThreadPoolExecutor
     v = Verdict('C15', tier)
-    states = trans = calls = uniq = done = nontrivial = 0
-    acts, apis, samples, per_config = {}, {}, [], {}
-    for name in TIERS[tier]:
-        r = tlc.run('Format', cfg='MC_Format.cfg', dump=True, tag='C15_' + name.replace('+', 'x'), timeout=3000, coverage=False,
-                    constants=CONFIGS[name])
+    if replay:
+        return replay_file(v, replay)
+    names = TIERS[tier]
+    par = 4
+    with ThreadPoolExecutor(par) as ex:                       # the configurations are independent TLC runs
+        runs = dict(ex.map(run_config, [(n, max(2, PROCS // par)) for n in names]))
+    states = trans = 0
+    per_config, jobs = {}, []
+    for name in names:
+        r = runs[name]
         if r.violated:
             print(r.out[-3000:])
             raise SystemExit('machinery failure: Format.tla violates %s in configuration %s (L => H fails in the model)' % (r.violated, name))
         tlc.require_ok(r, 'Format/' + name)
         states += r.distinct
         trans += r.generated
-        out = pmap_dump(r.dump, {'config': name, 'tier': tier, 'apis_from_model': name.startswith('enc')})
-        os.remove(r.dump)
-        if sum(o['n'] for o in out) != r.distinct:
-            raise SystemExit('machinery failure: replayed %d states, TLC found %d' % (sum(o['n'] for o in out), r.distinct))
-        traces, count = {}, {}
-        drift_, cdrift = {}, 0
-        for o in out:
-            traces.update(o['traces'])
-            for a, n in o['acts'].items():
-                acts[a] = acts.get(a, 0) + n
-            for a, n in o['apis'].items():
-                apis[a] = apis.get(a, 0) + n
-            for d, x in o['drift'].items():
-                y = drift_.setdefault(d, {'n': 0, 'ex': x['ex']})
-                y['n'] += x['n']
-            cdrift += o['cdrift']
-            samples += o['samples'][:1]
-        c = sum(o['calls'] for o in out)
-        calls += c
-        done += sum(o['done'] for o in out)
-        nontrivial += sum(o['nontrivial'] for o in out)
-        uniq += len(traces)
-        states += judge_all(v, traces, 'C15_t_' + name.replace('+', 'x'))
-        per_config[name] = {'states': r.distinct, 'finished_streams': sum(o['done'] for o in out), 'calls': c, 'distinct_observations': len(traces),
-                            'python_calls_compared_with_L': sum(o['pycalls'] for o in out),
-                            'libyaml_calls_compared_with_L': sum(o['ccalls'] for o in out), 'libyaml_layout_differs_from_L': cdrift,
-                            'tlc_s': round(r.wall, 1)}
-        for d, x in drift_.items():
-            v.note('spec-drift C15/%s: %d Python-emitter outputs differ from the L prediction in %s, e.g. %s' % (name, x['n'], d, json.dumps(x['ex'], default=str)[:900]))
-    for name in DESIGN[tier]:
-        r = tlc.run('Format', cfg='MC_Format.cfg', tag='C15_' + name, timeout=3000, coverage=False, constants=CONFIGS[name])
-        if r.violated:
-            print(r.out[-3000:])
-            raise SystemExit('machinery failure: Format.tla violates %s in configuration %s' % (r.violated, name))
-        tlc.require_ok(r, 'Format/' + name)
-        states += r.distinct
-        trans += r.generated
-        per_config[name] = {'states': r.distinct, 'design_check_only': True, 'tlc_s': round(r.wall, 1)}
+        per_config[name] = {'states': r.distinct, 'tlc_s': round(r.wall, 1)}
+        if name in DESIGN_ONLY:
+            per_config[name]['design_check_only'] = True
+            continue
+        extra = {'config': name, 'tier': tier, 'apis_from_model': name.startswith('enc')}
+        jobs += [('replay', r.dump, a, b, extra) for a, b in mbt.split_dump(r.dump, 48)]
+    nv, ne, nc = (1500, 1500, 1200) if tier == 'quick' else (30000, 30000, 12000)
+    for kind, n in (('values', nv), ('events', ne), ('corpus', nc)):
+        ids = list(range(n))
+        jobs += [('random', kind, ids[i::32]) for i in range(32)]
+    with mp.Pool(PROCS) as pool:
+        results = pool.map(job, jobs, chunksize=1)
+    for name in names:
+        if runs[name].dump and os.path.exists(runs[name].dump):
+            os.remove(runs[name].dump)
+    traces, acts, apis, samples, drift_ = {}, {}, {}, [], {}
+    calls = rcalls = done = nontrivial = 0
+    for res in results:
+        if res[0] == 'random':
+            traces.update(res[1][0])
+            rcalls += res[1][1]
+            continue
+        name, o = res[1], res[2]
+        pc = per_config[name]
+        traces.update(o['traces'])
+        for a, n in o['acts'].items():
+            acts[a] = acts.get(a, 0) + n
+        for a, n in o['apis'].items():
+            apis[a] = apis.get(a, 0) + n
+        for d, x in o['drift'].items():
+            y = drift_.setdefault((name, d), {'n': 0, 'ex': x['ex']})
+            y['n'] += x['n']
+        samples += o['samples'][:1]
+        calls += o['calls']
+        done += o['done']
+        nontrivial += o['nontrivial']
+        for k, w in (('dump_states', 'n'), ('finished_streams', 'done'), ('calls', 'calls'), ('python_calls_compared_with_L', 'pycalls'),
+                     ('libyaml_calls_compared_with_L', 'ccalls'), ('libyaml_layout_differs_from_L', 'cdrift')):
+            pc[k] = pc.get(k, 0) + o[w]
+    for name in names:
+        if name not in DESIGN_ONLY and per_config[name].get('dump_states') != per_config[name]['states']:
+            raise SystemExit('machinery failure: %s: replayed %s states, TLC found %d' % (name, per_config[name].get('dump_states'), per_config[name]['states']))
+    for (name, d), x in sorted(drift_.items()):
+        v.note('spec-drift C15/%s: %d Python-emitter outputs differ from the L prediction in %s, e.g. %s' % (name, x['n'], d, json.dumps(x['ex'], default=str)[:900]))
     expected = {'Feed', 'StreamStart', 'FirstDocumentStart', 'DocumentStart', 'DocumentRoot', 'DocumentEnd', 'FirstFlowSequenceItem',
                 'FlowSequenceItem', 'FirstFlowMappingKey', 'FlowMappingKey', 'FlowMappingSimpleValue', 'FlowMappingValue',
                 'FirstBlockSequenceItem', 'BlockSequenceItem', 'FirstBlockMappingKey', 'BlockMappingKey', 'BlockMappingSimpleValue',
                 'BlockMappingValue'}
     if expected - set(acts):
         raise SystemExit('machinery failure: Format.tla actions never taken: %s' % sorted(expected - set(acts)))
-    # code -> spec
-    nv, ne, nc = (1500, 1500, 1200) if tier == 'quick' else (30000, 30000, 12000)
-    jobs = []
-    for kind, n in (('values', nv), ('events', ne), ('corpus', nc)):
-        ids = list(range(n))
-        jobs += [(kind, ids[i::32]) for i in range(32)]
-    with mp.Pool(16) as pool:
-        rr = pool.map(random_work, jobs, chunksize=1)
-    rtraces, rcalls = {}, 0
-    for tr, c in rr:
-        rtraces.update(tr)
-        rcalls += c
-    states += judge_all(v, rtraces, 'C15_t_random')
+    states += judge_all(v, traces, 'C15_judge')
     v.cov = {'states': states, 'transitions': trans, 'traces_validated_against_impl': calls + rcalls,
-             'spec_to_code_calls': calls, 'code_to_spec_calls': rcalls, 'distinct_observations_judged_by_tlc': uniq + len(rtraces),
+             'spec_to_code_calls': calls, 'code_to_spec_calls': rcalls, 'distinct_observations_judged_by_tlc': len(traces),
              'finished_event_streams_replayed': done, 'distinct_nontrivial': nontrivial, 'exhaustive': True,
              'rule': 'every finished state of every Format.tla configuration (event stream x option set) is written through the real '
                      'dumpers; non-trivial = the stream contains a collection; every projected output is judged by TLC (Trace_Format: '
                      'H_Format + Canonical); identical (options, observation) pairs are judged once',
-             'actions_fired': acts, 'calls_per_api': apis, 'configs': per_config, 'samples': samples[:6],
-             'random': {'values': nv, 'event_streams': ne, 'corpus_reemissions': nc}}
+             'actions_fired': acts, 'calls_per_api': apis, 'configs': per_config, 'bounds': {n: CONFIGS[n] for n in names},
+             'samples': samples[:6], 'random': {'values': nv, 'event_streams': ne, 'corpus_reemissions': nc}}
     v.assumptions = ['strings range over Unicode scalar values (no lone surrogates); option values are valid (version 1.1 / 1.2, well-formed tag '
                      'handles); a bytes stream is given an encoding; emit() has no encoding option',
                      'lines that start a block collection entry = BLOCK-ENTRY / block-context KEY tokens of the re-scanned output that '
